@@ -51,6 +51,12 @@ pub fn models(quick: bool) -> Vec<Model> {
         }
         v.push(Model { fen, ks: vec![3, 3], bound: Some(2), gos: 2 });
     }
+    // the engine's own answer ends the game (mate in one), then go again: null move expected
+    for k1 in [9usize, 20, 40] {
+        for k2 in [0usize, 5] {
+            v.push(Model { fen: ROOTS[4].0, ks: vec![k1, k2], bound: Some(2), gos: 2 });
+        }
+    }
     // two consecutive go commands: the first search thread may still be running
     for (fen, _) in &ROOTS[..if quick { 3 } else { 5 }] {
         for k1 in [0usize, 3, 7, 9, 12] {
@@ -96,10 +102,32 @@ pub fn run(rep: &Report, only_terminal_and_first: bool) -> E3Result {
                 let m = &ms[i];
                 let ks = m.ks.iter().map(|k| k.to_string()).collect::<Vec<_>>().join(",");
                 let bound = m.bound.map(|b| b.to_string()).unwrap_or("none".into());
-                let out = Command::new(SCHED_BIN).args(["run", m.fen, &ks, &bound, &m.gos.to_string()]).env("WMC_MAX_SECS", if rep.quick() { "40" } else { "900" }).output();
-                let out = match out {
-                    Ok(o) => o,
+                let wall: u64 = if rep.quick() { 40 } else { 900 };
+                let child = Command::new(SCHED_BIN).args(["run", m.fen, &ks, &bound, &m.gos.to_string()]).env("WMC_MAX_SECS", wall.to_string()).stdout(std::process::Stdio::piped()).stderr(std::process::Stdio::piped()).spawn();
+                let mut child = match child {
+                    Ok(c) => c,
                     Err(e) => crate::report::machinery_error(&format!("cannot run wmc-sched: {}", e)),
+                };
+                // loom's own duration cap is only looked at between executions: a single execution that never ends
+                // (the explorer stuck, e.g. on a synchronisation object that outlives an execution) needs a hard stop
+                let t0 = std::time::Instant::now();
+                loop {
+                    match child.try_wait() {
+                        Ok(Some(_)) => break,
+                        Ok(None) => {
+                            if t0.elapsed().as_secs() > wall + 30 {
+                                let _ = child.kill();
+                                let _ = child.wait();
+                                crate::report::machinery_error(&format!("the loom model for {} k={} bound={} gos={} did not end within {} s: the explorer is stuck inside one execution (not a verdict)", m.fen, ks, bound, m.gos, wall + 30));
+                            }
+                            std::thread::sleep(std::time::Duration::from_millis(5));
+                        }
+                        Err(e) => crate::report::machinery_error(&format!("waiting for wmc-sched: {}", e)),
+                    }
+                }
+                let out = match child.wait_with_output() {
+                    Ok(o) => o,
+                    Err(e) => crate::report::machinery_error(&format!("cannot read wmc-sched output: {}", e)),
                 };
                 let text = String::from_utf8_lossy(&out.stdout).to_string();
                 let line = text.lines().rev().find(|l| l.starts_with('{')).unwrap_or("").to_string();
